@@ -442,5 +442,5 @@ def run(prog, rep):
     rule_cow(prog, rep)
     if rep.tier == "thorough":
         from .. import witness
-        witness.run(rep, ["c30_cow", "c30_send_sync"])
+        witness.run(rep, ["c30_cow", "c30_cow_clone", "c30_send_sync"])
     rep.assume("std::sync::Arc and triomphe::Arc are memory-safe for their documented contracts")
